@@ -25,7 +25,7 @@ import time
 
 from vp.common.harness import Fail
 from vp.gen import c16_ops, c16_world
-from vp.gen.c16_world import K_CLOBBER, K_INNER, K_STALE, K_TOPLEVEL, run_history
+from vp.gen.c16_world import K_CLOBBER, K_STALE, K_TOPLEVEL, run_history
 
 ID = "C16"
 LEVEL = "exploration"
@@ -127,35 +127,20 @@ def _is_toplevel_parent(case, fail: Fail) -> bool:
 
 
 def _is_clobbered(case, fail: Fail) -> bool:
-    """alias-registered fails: the alias is not registered under any key and the entry under its path is a *detached*
+    """alias-registered fails: the entry under the alias's own path is a *detached*
     alias (one that was deleted or replaced out of the tree).  Detached aliases keep registering themselves under
     their old path: when set_member re-targets the stale back-references of a replaced object, or when they are
     resolved lazily through an alias that still points at them."""
     d = fail.detail or {}
-    return bool(fail.clause == "alias-registered" and d.get("keys") == [] and d.get("occupant_detached"))
+    return bool(fail.clause == "alias-registered" and d.get("occupant_detached"))
 
 
-def _is_inner_retarget(case, fail: Fail) -> bool:
-    """alias-registered fails for an alias *chain* right after one of its inner links was re-targeted explicitly
-    (`inner.target = obj`, or `inner.resolve_target()` on an already resolved alias, which looks its path up again):
-    the outer aliases were registered with the old final target and are not moved.  Third route: set_member re-targets
-    every alias listed in the replaced object's `aliases`, including stale entries of aliases re-targeted elsewhere."""
-    d = fail.detail or {}
-    links = d.get("links") or []
-    if fail.clause != "alias-registered" or not d.get("chain"):
-        return False
-    if fail.kind in ("retarget:obj", "resolve_target"):
-        return bool(d.get("retargeted") and d["retargeted"] in links[1:])
-    # set_member re-targets stale entries of old.aliases too (aliases that were re-targeted elsewhere in the meantime)
-    return fail.kind.startswith("set_member:") and any(h in links[1:] for h in d.get("hijacked") or ())
-
-
-KNOWN = {K_INNER: _is_inner_retarget, K_STALE: _is_stale_key, K_TOPLEVEL: _is_toplevel_parent, K_CLOBBER: _is_clobbered}
+KNOWN = {K_STALE: _is_stale_key, K_TOPLEVEL: _is_toplevel_parent, K_CLOBBER: _is_clobbered}
 
 
 # ----------------------------------------------------------------------------- search
 def _steer(ctx) -> list:
-    return sorted(s for s in (K_STALE, K_TOPLEVEL, K_CLOBBER, K_INNER) if s in ctx.known)
+    return sorted(s for s in (K_STALE, K_TOPLEVEL, K_CLOBBER) if s in ctx.known)
 
 
 def strategy(ctx):
